@@ -570,8 +570,16 @@ func (s *Lexer) getNextToken() (*Token, error) {
 	unendingRegexp := false
 
 	switch current_state {
+	case SSTART:
+		fallthrough
+	case SEXCL:
+		fallthrough
 	case SERROR:
 		token.TokenType = ERROR
+	case SSTRING_S_ESCAPE:
+		fallthrough
+	case SSTRING_D_ESCAPE:
+		fallthrough
 	case SSTRING_SINGLE:
 		fallthrough
 	case SSTRING_DOUBLE:
@@ -723,6 +731,8 @@ func (s *Lexer) getNextToken() (*Token, error) {
 		unendingBlockComment = true
 		token.TokenType = ERROR
 	case SBLOCKCOMMENTFINAL:
+		fallthrough
+	case SCOMMENTSTART:
 		fallthrough
 	case SCOMMENT:
 		token.TokenType = COMMENT
